@@ -17,7 +17,8 @@ RULE = ("(a) the row sequence of valid streams (pyjelly- and reference-producer-
         "rv.wire; the flat parse of every re-partitioning must equal the flat parse of the original. (b) grouped parsing of "
         "the same bytes: number of sinks == number of frames, sink i holds exactly frame i's statements, concatenation == "
         "flat parse, and the caller's ContextVar shows frame i's metadata when sink i is received. (c) sequences of 1-12 "
-        "graphs/datasets (some empty) written through ONE shared stream with each grouped logical type via "
+        "graphs/datasets (some empty, some with more rows than the default frame size) written through ONE shared stream with each "
+        "grouped logical type - requested through logical_type or through an explicit GraphsFrameFlow()/DatasetsFrameFlow() object - via "
         "grouped_stream_to_frames / _to_file of both integrations: frames carrying >= 1 statement row == non-empty inputs, "
         "in order, one each, and grouped parsing returns the input groups. Non-trivial: re-partitionings that cut between an "
         "entry row and its use or between a term and its elided repeat; group sequences with >= 2 non-empty groups sharing "
@@ -186,11 +187,24 @@ def check_group_writing(ctx, rng):
     arity = 3 if GROUPED_LOGICALS[logical] == 3 else 4
     mode = "rdf11" if integ == "rdflib" else rng.choice(["generic", "rdf11"])
     groups = make_groups(rng, arity, mode)
+    if rng.random() < .3:
+        # one group with more rows than the default frame size of 250: still exactly one frame per group
+        big = [tuple([("iri", f"http://ex.org/big/s{k}"), ("iri", "http://ex.org/big/p"), ("lit", str(k), None, None)]
+                     + ([("iri", "http://ex.org/big/g")] if arity == 4 else [])) for k in range(rng.randint(260, 340))]
+        groups.insert(rng.randint(0, len(groups)), big)
     allst = [s for g in groups for s in g]
     preset = gen.preset_for(rng, allst or [(("iri", "a"),) * arity], 1 if arity == 3 else 2)
     cfg = {"physical": 1 if arity == 3 else 2, "preset": preset, "logical": logical, "frame_size": rng.choice([1, 3, 250]),
            "delimited": True, "generalized": mode == "generic", "rdf_star": mode == "generic"}
-    options = pj.make_options(cfg)
+    flow_obj = None
+    if rng.random() < .35:
+        # the grouping requested through an explicit (freshly built, hence empty) flow object instead of logical_type
+        from pyjelly.serialize import flows as F
+        flow_obj = (F.GraphsFrameFlow if GROUPED_LOGICALS[logical] == 3 else F.DatasetsFrameFlow)()
+        cfg["explicit_flow"] = type(flow_obj).__name__
+        if rng.random() < .5:
+            cfg["logical"] = 0
+    options = pj.make_options(cfg, flow=flow_obj)
     via = rng.choice(["frames", "file"])
     out = io.BytesIO()
     try:
@@ -279,7 +293,11 @@ def replay(w: dict):
         groups = [list(g) for g in T.from_json(w["groups"])]
         integ, cfg = w["integration"], w["cfg"]
         cfg["preset"] = tuple(cfg["preset"])
-        options = pj.make_options(cfg)
+        flow_obj = None
+        if cfg.get("explicit_flow"):
+            from pyjelly.serialize import flows as F
+            flow_obj = getattr(F, cfg["explicit_flow"])()
+        options = pj.make_options(cfg, flow=flow_obj)
         out = io.BytesIO()
         arity = 3 if cfg["physical"] == 1 else 4
         if integ == "generic":
